@@ -104,10 +104,30 @@ def sym_hash(x):
         return S.SymInt(z3.If(x.e == -1, z3.IntVal(-2), x.e))
     if isinstance(x, builtins.int) and not isinstance(x, bool):
         return builtins.hash(x)
+    if isinstance(x, tuple):
+        # CPython's tuple hash is modelled as INJECTIVE on the hashes of its components
+        return SymHashTuple([sym_hash(e) for e in x])
     cls = type(x)
     if getattr(cls, "__module__", "").startswith("puan") and "__hash__" in cls.__dict__:
         return cls.__hash__(x)
     return builtins.hash(x)
+
+
+class SymHashTuple:
+    def __init__(self, parts):
+        self.parts = parts
+
+    def __repr__(self):
+        return "SymHashTuple(%r)" % (self.parts,)
+
+
+def hash_equal(h1, h2):
+    """z3 Bool: are two modelled hash values equal?"""
+    if isinstance(h1, SymHashTuple) or isinstance(h2, SymHashTuple):
+        if not (isinstance(h1, SymHashTuple) and isinstance(h2, SymHashTuple)) or len(h1.parts) != len(h2.parts):
+            return z3.BoolVal(False)
+        return z3.And([hash_equal(a, b) for a, b in zip(h1.parts, h2.parts)])
+    return S.term(h1) == S.term(h2)
 
 
 class hash_shadow:
@@ -232,3 +252,48 @@ class UnionDict(dict):
 
     def __setitem__(self, k, v):
         raise S.HarnessError("code under test writes into its argument dictionary")
+
+
+# --------------------------------------------------------------------------
+# M5 "decided" mode for hash values: hashing modelled as INJECTIVE on integer values.  Every integer (proxy or concrete) that
+# is hashed through the module-level `hash` gets a token; two integers get the same token iff the path decides them equal
+# (fork).  Tokens are 3^k multiples so that token(l)+token(u) is injective on the multiset {l,u} (Bounds has l<=u).
+
+def _dec_token(term):
+    c = S.cur()
+    s_ = z3.simplify(term)
+    for (e, tok) in c.hash_tokens:
+        if e.eq(s_) or c.decide(e == s_):
+            return tok
+    tok = (3 ** (len(c.hash_tokens) + 1)) * 1048583
+    c.hash_tokens.append((s_, tok))
+    return tok
+
+
+def inj_hash(x):
+    if isinstance(x, S.SymInt):
+        return _dec_token(x.e)
+    if isinstance(x, bool):
+        return _dec_token(z3.IntVal(int(x)))
+    if isinstance(x, builtins.int):
+        return _dec_token(z3.IntVal(int(x)))
+    if isinstance(x, tuple):
+        return builtins.hash(tuple(inj_hash(e) for e in x))
+    cls = type(x)
+    if getattr(cls, "__module__", "").startswith("puan") and "__hash__" in cls.__dict__:
+        return cls.__hash__(x)
+    return builtins.hash(x)
+
+
+class inj_hash_shadow:
+    def __enter__(self):
+        n = _ns
+        for m in (n.puan, n.pg):
+            m.__dict__["hash"] = inj_hash
+        return self
+
+    def __exit__(self, *a):
+        n = _ns
+        for m in (n.puan, n.pg):
+            m.__dict__.pop("hash", None)
+        return False
